@@ -18,6 +18,12 @@ EXPLICIT = {
     "Index>::index": "index", "IndexMut>::index_mut": "index", "Index<I>>::index": "index", "IndexMut<I>>::index_mut": "index",
     "slice::swap": "index", "ArrayVec::swap": "index", "copy_from_slice": "index", "split_at": "index", "Vec::remove": "index",
     "Vec::swap_remove": "index", "Vec::insert": "index", "str::split_at": "index",
+    # range / index access of str and slices as the resolved library impls are named (`&s[..n]` panics off a char boundary or past the end)
+    "str::traits::index": "index", "str::traits::index_mut": "index", "slice::index::index": "index", "slice::index::index_mut": "index",
+    "String::remove": "index", "String::insert": "index", "String::insert_str": "index", "String::split_off": "index", "String::drain": "index",
+    "String::replace_range": "index", "Vec::drain": "index", "Vec::split_off": "index", "slice::chunks": "index", "slice::chunks_exact": "index",
+    "slice::windows": "index", "slice::rotate_left": "index", "slice::rotate_right": "index", "slice::split_at_mut": "index", "char::from_digit": "index",
+    "char::to_digit": "index", "str::split_at_mut": "index",
     "Duration::mul_f32": "duration", "Duration::mul_f64": "duration", "Duration::div_f32": "duration",
     "Duration as std::ops::Add>::add": "duration", "Duration as std::ops::Sub>::sub": "duration", "Duration as std::ops::Div<u32>>::div": "duration",
     "Duration as std::ops::Mul<u32>>::mul": "duration", "Duration::from_secs_f32": "duration", "Duration::from_secs_f64": "duration",
